@@ -396,7 +396,7 @@ def c04_case(rng):
     spec['motor']['pwm0'] = D
     if rng.random() < 0.3:
         # the constant duty cycle is commanded by a controller (one ConstantPWM rule covering the whole run)
-        spec['rules'] = [{'type': 'const', 'start': [0.0, 'sec'], 'dur': [1e9, 'sec'], 'value': D}]
+        spec['rules'] = [{'type': 'const', 'start': [0.0, 'sec'], 'dur': [1e30, 'sec'], 'value': D}]   # (slow chains have horizons beyond 1e10 s)
     pre = []
     if rng.random() < 0.4:
         sim_props.inject_redeclare(rng, spec, pre)      # e.g. one leg of an efficiency sweep on existing objects
@@ -527,7 +527,7 @@ def run_C04(ctx):
     for D in [0.0, 0.0, 1.0, -1.0][:ctx.budget(3, 4)]:
         case = c04_case(rng)
         case['spec']['motor']['pwm0'] = D
-        case['spec']['rules'] = [{'type': 'const', 'start': [0.0, 'sec'], 'dur': [1e9, 'sec'], 'value': D}]
+        case['spec']['rules'] = [{'type': 'const', 'start': [0.0, 'sec'], 'dur': [1e30, 'sec'], 'value': D}]   # (slow chains have horizons beyond 1e10 s)
         eval_c04(ctx, case)
     ctx.rule = ('non-self-locking chains, constant loads below and above stall (either sign), constant duty cycles (full, partial, '
                 'reversed, inside the dead zone, exactly 0; set on the motor or commanded by a controller), horizons of 2-5 time constants, dt, dt/2, dt/4, dt/8 with k*dt <= 0.2; at every '
